@@ -774,7 +774,11 @@ var scMuts = []scMut{
 									if o.Fields[fi].Args[ai].N == ia.N {
 										t := &o.Fields[fi].Args[ai].T
 										for {
-											if t.K == 2 { // already non-null at this level
+											if t.K == 2 { // already non-null at this level: look inside a list below it
+												t = t.Of
+												if t.K != 1 {
+													break
+												}
 												t = t.Of
 												continue
 											}
@@ -1283,9 +1287,9 @@ func scCase(id string, docs []sx.S, tags []string, human string) Case {
 }
 
 func c13Gen(r *rand.Rand, tier string) []Case {
-	n, per := 40, 8
+	n, per := 100, 8
 	if tier == "thorough" {
-		n, per = 150, scNumMuts()
+		n, per = 300, scNumMuts()
 	}
 	var out []Case
 	for i := 0; i < n; i++ {
@@ -1328,9 +1332,9 @@ func c13Gen(r *rand.Rand, tier string) []Case {
 }
 
 func c16Gen(r *rand.Rand, tier string) []Case {
-	n, k := 30, 5
+	n, k := 80, 5
 	if tier == "thorough" {
-		n, k = 150, 12
+		n, k = 400, 12
 	}
 	var out []Case
 	for i := 0; i < n; i++ {
@@ -1386,9 +1390,9 @@ func c16Gen(r *rand.Rand, tier string) []Case {
 }
 
 func c14Gen(r *rand.Rand, tier string) []Case {
-	n := 40
+	n := 120
 	if tier == "thorough" {
-		n = 300
+		n = 1500
 	}
 	var out []Case
 	for i := 0; i < n; i++ {
